@@ -183,7 +183,11 @@ def proof_step(pid, tier, log):
 
 def build_harness(binname, log, features=None, toolchain=None, nightly=False):
     bins = {}
-    for prof, flag, sub in (("dbg", [], "debug"), ("rel", ["--profile", "rel"], "rel")):
+    profiles = (("dbg", [], "debug"), ("rel", ["--profile", "rel"], "rel"))
+    if binname.startswith("widths"):
+        # all-widths sweep bins (1024 instantiations): unoptimised profiles, same debug-assertion / overflow-check split
+        profiles = (("dbg", ["--profile", "w0"], "w0"), ("rel", ["--profile", "w0rel"], "w0rel"))
+    for prof, flag, sub in profiles:
         cmd = ["cargo"] + ([toolchain] if toolchain else []) + ["build", "--offline", "--bin", binname] + flag
         if features:
             cmd += ["--features", features]
@@ -371,6 +375,11 @@ def main():
 
     # 3. harness
     multi = getattr(mod, "HARNESS_BINS", None)
+    if getattr(mod, "HARNESS_BINS_SWEEP", None):
+        # all-widths sweep bins (gen/widthsweep.py), used by both tiers
+        multi = list(multi or [binname]) + [b for b in mod.HARNESS_BINS_SWEEP if b not in (multi or [])]
+        if not hasattr(mod, "ROUTE"):
+            mod.ROUTE = lambda l, _b=binname: _b
     if tier == "thorough" and getattr(mod, "HARNESS_BINS_THOROUGH", None):
         # extra (slow to build) bins used by the thorough tier only, e.g. the all-widths sweep
         multi = list(multi or [binname]) + list(mod.HARNESS_BINS_THOROUGH)
@@ -411,6 +420,11 @@ def main():
         cases += list(mod.gen(rng, tier))
     lines = [c[0] for c in cases]
     tags = [c[1] for c in cases]
+    # optional third component: the answer computed by the generator with exact Python integers (all-widths sweep).
+    # Such a request is sent to the real crate first; the Lean driver (model + spec) is consulted when the crate's
+    # answer differs from it (so the Lean spec judges every reported violation) and for a fixed sample of widths.
+    expected = [c[2] if len(c) > 2 else None for c in cases]
+    from gen import widthsweep as _wsweep
 
     violations = []      # R not in Sp
     divergences = []     # R != Mo
@@ -422,29 +436,52 @@ def main():
         broken += proof["problems"]
     broken += extra_problems
     n_eval = 0
-    def answer(lines):
+    prefilter = {"n": 0, "to_driver": 0}
+
+    def answer(lines, expected=None):
         """the real crate's answers per build mode, and the driver's `model<TAB>spec` answers"""
+        from concurrent.futures import ThreadPoolExecutor
+        expected = expected or [None] * len(lines)
         if allbins:
-            R = {}
             route = [mod.ROUTE(l) for l in lines]
-            for m in ("dbg", "rel"):
+
+            def one_mode(m):
                 outs = [None] * len(lines)
                 for b in allbins:
                     idx = [i for i, r in enumerate(route) if r == b]
                     res = run_chunked(allbins[b][m], [lines[i] for i in idx])
                     for i, o in zip(idx, res):
                         outs[i] = o
-                R[m] = [o if o is not None else "bad-op" for o in outs]
+                return [o if o is not None else "bad-op" for o in outs]
+            jobs = {m: one_mode for m in ("dbg", "rel")}
         else:
-            R = {m: run_chunked(exe, lines) for m, exe in bins.items()}
-        return R, run_chunked(driver, lines)
+            jobs = {m: (lambda _m, _exe=exe: run_chunked(_exe, lines)) for m, exe in bins.items()}
+        plain = [i for i in range(len(lines)) if expected[i] is None or _wsweep.always_driver(lines[i])]
+        with ThreadPoolExecutor(max_workers=len(jobs) + 1) as ex:
+            futs = {m: ex.submit(f, m) for m, f in jobs.items()}
+            fd = ex.submit(run_chunked, driver, [lines[i] for i in plain])
+            R = {m: f.result() for m, f in futs.items()}
+            dres = fd.result()
+        mo_sp = [None] * len(lines)
+        for i, o in zip(plain, dres):
+            mo_sp[i] = o
+        rest = [i for i in range(len(lines)) if mo_sp[i] is None]
+        differ = [i for i in rest if any(R[m][i] not in ("skip", expected[i]) for m in R)]
+        for i, o in zip(differ, run_chunked(driver, [lines[i] for i in differ])):
+            mo_sp[i] = o
+        for i in rest:
+            if mo_sp[i] is None:
+                mo_sp[i] = "*\t" + expected[i]      # crate answer == exact Python value; model not evaluated here
+        prefilter["n"] += len(rest)
+        prefilter["to_driver"] += len(differ)
+        return R, mo_sp
 
     if bins is None:
         broken.append(herr)
         R = {}
         mo_sp = run_chunked(driver, lines)
     else:
-        R, mo_sp = answer(lines)
+        R, mo_sp = answer(lines, expected)
     known = load_known()
     internal = []
     unmodelled = {}
@@ -547,6 +584,8 @@ def main():
             "value_class_distribution": dist, "outcome_kinds": outcome_kinds,
             "model_divergences": len(divergences), "spec_violations": len(violations),
             "divergences_where_property_leaves_answer_open": len(open_divergences),
+            "width_sweep": {"requests_prefiltered_by_exact_python_value": prefilter["n"], "of_those_sent_to_the_lean_driver_because_the_crate_differed": prefilter["to_driver"],
+                            "note": "all-widths sweep (every N = 1..1024 of the u8-digit types): requests whose crate answer equals the exact Python value are accepted without evaluating the Lean model; N <= 40 and every 64th N always go through the Lean driver"},
             "known_findings_hit": {k: v["n"] for k, v in known_hits.items()},
             "configs": sorted(set(l.split(" ")[1] for l in lines)),
             "ops_not_modelled": unmodelled,
